@@ -58,7 +58,7 @@ func ovStructType(r *RNG, depth int) reflect.Type {
 	n := 1 + r.Intn(6)
 	fs := make([]reflect.StructField, n)
 	for i := range fs {
-		fs[i] = reflect.StructField{Name: fmt.Sprintf("F%d", i), Type: ovFieldType(r, depth)}
+		fs[i] = reflect.StructField{Name: fmt.Sprintf("%s%d", uniPrefix(r), i), Type: ovFieldType(r, depth)}
 		if r.Chance(8) {
 			fs[i].Tag = `dials:"-"`
 		}
